@@ -18,3 +18,8 @@ pub open spec fn lehmer_ok(m: LehmerMatrix, a: int, b: int) -> bool {
     &&& m.1 <= m.3
     &&& m.0 as int <= a && m.1 as int <= a && m.2 as int <= a && m.3 as int <= a
 }
+
+// (a0, a1) are the prefixes of (aa, bb): aa = a0*2^k + ta, bb = a1*2^k + tb with tails below 2^k
+pub open spec fn is_prefix(a0: int, a1: int, aa: int, bb: int, k: nat) -> bool {
+    aa >= bb && bb >= 0 && a0 == aa / (pow2(k) as int) && a1 == bb / (pow2(k) as int)
+}
